@@ -1,6 +1,6 @@
 (* C04 — exact accounting: no ghost keys, no leaked placeholders. *)
 From Coq Require Import List Arith ZArith.
-From LK Require Import AList Model Inv StepInv PropLemmas.
+From LK Require Import AList Model Inv StepInv PropLemmas Seq DropInv Stream SeqRefine SeqLimit Conc.
 Import ListNotations.
 
 (* The key set of the map (what num_entries_or_locked counts and keys_with_entries_or_locked lists)
@@ -27,6 +27,14 @@ Theorem C04_keys_reports_keys : forall c s a o s' l,
 Proof. intros c s a o s' l H. exact (keys_obs c s a o s' l (reachable_inv c s H)). Qed.
 
 (* non-vacuity: failed try on a held valueless key, then drop: the placeholder is gone *)
+(* At rest, in terms of the plain map that explains the history (Conc.v): the keys the container holds are exactly the
+   keys that map gives a value to -- the comparison the linearisability stage makes at the end of every real-thread
+   history. *)
+Theorem C04_rest_keys_are_the_maps_keys : forall s sp,
+  Inv s -> R s sp -> s_guards s = [] -> s_ops s = [] ->
+  forall k, In k (akeys (s_ents s)) <-> sp_val sp k <> None.
+Proof. exact rest_keys_are_the_maps_keys. Qed.
+
 Example C04_witness :
   run (mkCfg false) [LStart 0 (CLock ShTry 1 None); LResume 0 []; LStart 1 (CLock ShTryAsync 1 None);
                      LResume 1 [1]; LResume 1 [1]; LResume 1 [1]; LStart 2 (CDrop 0); LResume 2 [1];
